@@ -11,6 +11,7 @@ window theorems need the buffer to be time-ordered — the domain of the propert
 guarantees (`C08_ordered_history_sorted_buffer`).
 -/
 import Frequenz.Lemmas.ResamplingHelper
+import Frequenz.Lemmas.ResamplerTie
 
 set_option linter.unusedSimpArgs false
 
@@ -210,3 +211,46 @@ example : SortedTs (validHistory C08_exHist) := by decide +kernel
 example : SortedTs (run C08_exCfg C08_exHist).buf := by decide +kernel
 example : (tick C08_exCfg (run C08_exCfg C08_exHist) 3000000 0).2.rel.map (·.id) = [2] := by decide +kernel
 example : (run C08_exCfg C08_exHist).buf.map (·.id) = [0, 2, 3] := by decide +kernel
+
+/-- **The hand-written helper model is the current source text** of `_ResamplingHelper`
+(`Extracted.ResamplerLoops.*`, machine-translated from `_resampling.py` on every run, over a list-backed
+`deque(maxlen)`).  For ALL configurations, states, samples, tick times and estimates:
+(1) `add_sample` is `addSample` (append with `maxlen`, the sampling start stamped once, the count);
+(2) `_update_source_sample_period` is `updatePeriod` (guard, clamp of the estimate, returned flag; nothing else changes);
+(3) `_update_buffer_len` is `newBufferLen` + `resize` (the `ZeroDivisionError` case, the length asked for, no rebuild
+when it is the current `maxlen`, otherwise the newest samples are kept);
+(4) `resample` is `tick`: update first, resize iff updated, then the two bisections with the extracted keys bound the
+slice handed to the resampling function; the value is `None` without calling it exactly when the slice is empty; an
+exception escapes exactly when the model says `err`. -/
+theorem C08_model_is_source :
+    (∀ (h : Helper) (x : Sample),
+      Extracted.ResamplerLoops.addSample h.buf h.maxlen h.start h.received h.inputPeriod x
+        = ResamplerTie.stTuple (addSample h x)) ∧
+    (∀ (cfg : Cfg) (h : Helper) (T est : Int),
+      Extracted.ResamplerLoops.updatePeriod h.buf h.maxlen h.start h.received h.inputPeriod
+          cfg.period cfg.maxAge cfg.maxLen cfg.warnLen T est =
+        (h.buf, h.maxlen, h.start, h.received, (updatePeriod cfg h T est).1.inputPeriod, (updatePeriod cfg h T est).2) ∧
+      (updatePeriod cfg h T est).1 = { h with inputPeriod := (updatePeriod cfg h T est).1.inputPeriod }) ∧
+    (∀ (cfg : Cfg) (h : Helper) (ip : Int),
+      Extracted.ResamplerLoops.updateBufferLen h.buf h.maxlen h.start h.received ip
+          cfg.period cfg.maxAge cfg.maxLen cfg.warnLen =
+        match newBufferLen cfg ip with
+        | none => none
+        | some n => some ((resize { h with inputPeriod := some ip } n).buf,
+                          (resize { h with inputPeriod := some ip } n).maxlen,
+                          h.start, h.received, some ip, decide (n ≠ h.maxlen))) ∧
+    (∀ (cfg : Cfg) (h : Helper) (T est : Int),
+      Extracted.ResamplerLoops.resampleHelper h.buf h.maxlen h.start h.received h.inputPeriod
+          cfg.period cfg.maxAge cfg.maxLen cfg.warnLen T est =
+        if (tick cfg h T est).2.err then none
+        else some (ResamplerTie.stTuple (tick cfg h T est).1, T,
+                   if (tick cfg h T est).2.rel.isEmpty then none else some (tick cfg h T est).2.rel)) :=
+  ⟨ResamplerTie.addSample_eq, ResamplerTie.updatePeriod_eq, ResamplerTie.updateBufferLen_eq,
+   ResamplerTie.resampleHelper_eq⟩
+
+-- non-vacuity: the translated `resample` on the example history returns the sample stamped exactly `T`
+example : (Extracted.ResamplerLoops.resampleHelper (run C08_exCfg C08_exHist).buf (run C08_exCfg C08_exHist).maxlen
+      (run C08_exCfg C08_exHist).start (run C08_exCfg C08_exHist).received (run C08_exCfg C08_exHist).inputPeriod
+      1000000 2 1024 128 3000000 0).map (fun r => (r.2.1, r.2.2.map (·.map (·.id)))) = some (3000000, some [2]) := by
+  decide +kernel
+
